@@ -18,10 +18,13 @@ def norm(t):
 
 
 def skeleton(f):
-    """the function as a sequence of canonical statements in source order (conditions as canonical atoms; log and trace calls left out)"""
+    """the function as a sequence of canonical statements in source order (conditions as canonical atoms; log and trace calls
+    left out).  Inside one basic block the statements are sorted: the order of independent adjacent statements is not compared
+    (a reordering of dependent ones is the business of the rules that own those statements)."""
     out = []
     for b in sorted(f.blocks, reverse=True):
         blk = f.blocks[b]
+        here = []
         for i, st in enumerate(blk['stmts']):
             c = f.cond_of(b)
             if c and c[0] is st:
@@ -31,7 +34,8 @@ def skeleton(f):
                 t = P.K(st)
             if 'htp_log(' in t or 'fprintf(' in t or 'fprint_raw_data' in t:
                 continue                                   # log and trace calls are not compared (the debug configuration traces one side more than the other)
-            out.append(norm(re.sub(r'\s+', ' ', t)))
+            here.append(norm(re.sub(r'\s+', ' ', t)))
+        out += sorted(x for x in here if not x.startswith('IF ') and not x.startswith('return')) + [x for x in here if x.startswith('IF ') or x.startswith('return')]
     return out
 
 
